@@ -14,4 +14,4 @@ for m in $mods; do case $m in *C07|*C08|*C18) mc="$mc $m";; *) st="$st $m";; esa
 ( /usr/bin/time -f "stdlib part: %es %MKB" timeout 28000 coqchk -silent -Q . Koala -o $st > ../coqchk_stdlib.log 2>&1; echo "stdlib exit $?" >> ../coqchk_stdlib.log ) &
 ( /usr/bin/time -f "mathcomp part: %es %MKB" timeout 28000 coqchk -silent -Q . Koala -o $mc > ../coqchk_mathcomp.log 2>&1; echo "mathcomp exit $?" >> ../coqchk_mathcomp.log ) &
 wait
-tail -40 ../coqchk_stdlib.log ../coqchk_mathcomp.log
+tail -n 40 ../coqchk_stdlib.log; tail -n 40 ../coqchk_mathcomp.log
